@@ -56,7 +56,7 @@ def main():
                 work.append((tid, os.path.join(dirpath, 'patch.diff')))
     work.sort()
     nv = ne = 0
-    with ThreadPoolExecutor(8) as ex:
+    with ThreadPoolExecutor(16) as ex:
         for tid, bad in ex.map(run_one, work):
             if not bad:
                 print('%-8s ok' % tid)
